@@ -209,6 +209,11 @@ struct MirEmitter {
       } else if (k == "lt") {
         std::string tb = S("tb_%s_%d", fname.c_str(), (int) lrefs.size()); lrefs.push_back({tb, labs});
         insn("mov p, " + tb); insn("lsh t1, t0, 3"); insn("add p, p, t1"); insn("mov p, i64:(p)"); insn("jmpi p");
+      } else if (fn->geti("salt") & 1) {  // "ld", anchored: differences to a label that nothing else references (lref Li, A); target = &L0 + (Li - A) - (L0 - A)
+        std::string anchor = newlab(); label(anchor); insn("mov t2, t2");
+        std::string tb = S("ta_%s_%d", fname.c_str(), (int) lrefs.size()); std::vector<std::string> v; v.push_back(anchor); for (auto &l : labs) v.push_back(l); lrefs.push_back({tb, v});
+        insn("mov t1, " + tb); insn("lsh t0, t0, 3"); insn("add t1, t1, t0"); insn("mov t1, i64:(t1)"); insn("mov p, " + tb); insn("mov p, i64:(p)"); insn("sub t1, t1, p");
+        insn("laddr p, " + labs[0]); insn("add p, p, t1"); insn("jmpi p");
       } else {  // "ld": table of label differences (lref Li, L0) added to the address of L0
         std::string tb = S("td_%s_%d", fname.c_str(), (int) lrefs.size()); lrefs.push_back({tb, labs});
         insn("mov t1, " + tb); insn("lsh t0, t0, 3"); insn("add t1, t1, t0"); insn("mov t1, i64:(t1)"); insn("laddr p, " + labs[0]); insn("add p, p, t1"); insn("jmpi p");
@@ -256,7 +261,8 @@ struct MirEmitter {
     std::string funcs_txt; std::vector<std::pair<std::string, std::vector<std::string>>> all_lrefs;
     std::vector<std::string> ftxt; std::vector<std::set<std::string>> fcalls;
     for (auto &f : m.at("funcs").a) { lrefs.clear(); std::string t = func(f);
-      { std::set<std::string> mine; walk(f.at("body"), [&](const Json &st) { if (st[0].s == "call") mine.insert(st[2].s); }); fcalls.push_back(mine); } for (auto &l : lrefs) { bool diff = l.first.compare(0, 3, "td_") == 0; std::string sfx = diff ? ", " + l.second[0] : std::string(); t += l.first + ":\tlref " + l.second[0] + sfx + "\n"; for (size_t i = 1; i < l.second.size(); i++) t += "\tlref " + l.second[i] + sfx + "\n"; all_lrefs.push_back(l); } ftxt.push_back(t); }
+      { std::set<std::string> mine; walk(f.at("body"), [&](const Json &st) { if (st[0].s == "call") mine.insert(st[2].s); }); fcalls.push_back(mine); } for (auto &l : lrefs) { bool diff = l.first.compare(0, 3, "td_") == 0, anch = l.first.compare(0, 3, "ta_") == 0; std::string sfx = diff || anch ? ", " + l.second[0] : std::string(); size_t first = anch ? 1 : 0;
+        t += l.first + ":\tlref " + l.second[first] + sfx + "\n"; for (size_t i = first + 1; i < l.second.size(); i++) t += "\tlref " + l.second[i] + sfx + "\n"; all_lrefs.push_back(l); } ftxt.push_back(t); }
     std::string r = m.gets("name") + ":\tmodule\n";
     bool fwd_first = m.geti("fwd_first", 0) != 0;  // declaration order forward -> export -> definition
     bool rev = m.geti("rev", 0) != 0;               // functions are defined in reverse order: a callee defined before its caller is referenced directly
